@@ -157,6 +157,27 @@ def err_json(e):
   return {'k': 'err', 'code': type(e).__name__, 'via': 'raw'}
 
 
+class _Rpc:
+  """Call-recording view of the servicer / stub: remembers whether the last RPC RETURNED, so that a
+  response the harness cannot read (None, wrong message type) is reported as what the service
+  answered, not as an exception of the service."""
+
+  def __init__(self, target, runner):
+    self._t, self._r = target, runner
+
+  def __getattr__(self, name):
+    fn = getattr(self._t, name)
+    if not callable(fn):
+      return fn
+
+    def call(*a, **k):
+      self._r.last_rpc = None
+      v = fn(*a, **k)
+      self._r.last_rpc = (name, type(v).__name__)
+      return v
+    return call
+
+
 class RealRunner:
   """One real servicer + scripted Pythia; `step(req)` returns the response JSON."""
 
@@ -181,13 +202,17 @@ class RealRunner:
     return 'owners/%s/studies/%s' % (r.get('owner', 'o'), r.get('sid', 's'))
 
   def step(self, r):
+    self.last_rpc = None
     try:
       return self._step(r)
     except Exception as e:  # pylint: disable=broad-except
+      if self.last_rpc is not None:
+        # the RPC returned; its response is not of the declared type
+        return {'k': 'malformed', 'rpc': self.last_rpc[0], 'type': self.last_rpc[1]}
       return err_json(e)
 
   def _step(self, r):
-    sv, op = self.sv, r['op']
+    sv, op = _Rpc(self.sv, self), r['op']
     owner = r.get('owner', 'o')
     if owner not in self.owners:
       self.owners.append(owner)
